@@ -369,7 +369,12 @@ func CustomCase(r *rand.Rand, name string, o CustomOpts) *Case {
 	c.Feature("format", o.Format)
 	c.Feature("wrap", wm+"@"+o.WrapLevel)
 	c.Feature("fallible", fmt.Sprint(fallible))
-	c.AllowImports = []string{"fmt", "vcase/errs"}
+	switch wm {
+	case "wrapErrors":
+		c.AllowImports = []string{"fmt"}
+	case "using":
+		c.AllowImports = []string{"vcase/errs"}
+	}
 	return c
 }
 
